@@ -6,8 +6,13 @@ def closesSurplus : Bool := true
 def closesReplaced : Bool := true
 /-- dagChannel.reportValues closes the streams handed to a skipped channel -/
 def skippedChannelClosesValues : Bool := true
+/-- dagChannel.reportSkip closes the streams the channel already holds when it turns skipped -/
+def skipReleasesStored : Bool := true
 /-- updateValues closes a stream addressed to a node it is not a data predecessor of -/
 def closesNonDataValues : Bool := true
+/-- updateValues, target without an entry in dataPredecessors: it goes on with an empty set, so the
+    values sent to the target reach the arm that closes streams from non-data senders -/
+def missingDpsArm : String := "empty-set"
 def firstCopyExpr : String := "len(t.call.writeTo)+len(t.call.writeToBranches)*2"
 /-- multiStreamReader.close: the loop signals every merged source (range variables renamed K, V) -/
 def mergeCloseLoop : String := "range msr.sts: V.closeRecv()"
